@@ -45,8 +45,9 @@ def _select(fields, named, kind):
             # error.md: "exactly one field that is not used as the backtrace": the sole field, unless it is taken for the backtrace by its
             # type's name (and not marked `not(backtrace)`)
             bta = ATTRS[f["attr"]]["bt"]
-            # (a sole field marked `#[error(backtrace)]` is the source AND hands on its backtrace: the repository's own nightly tests)
-            return n == 1 and not (bta is None and isbt)
+            # (a sole field marked `#[error(backtrace)]` is the source AND hands on its backtrace: the repository's own nightly tests -
+            # unless it IS a `Backtrace`, `V(#[error(backtrace)] Backtrace)`: the pinned snapshot compiles that, with no source)
+            return n == 1 and not (bta is not False and isbt)
         return isbt
 
     cands = [i for i in en if ATTRS[fields[i]["attr"]][key] is None and default(fields[i])]
